@@ -5,7 +5,8 @@ Observed: TotalDepth.util.bin_file_type.binary_file_type(file_object) and binary
 
 PART 1 - recognition.  Every case generates one valid file of each of these layouts with the harness's independent
 generators (never with a writer of the repository) and requires the exact type code, through an io.BytesIO and through a
-file on disk:
+file on disk.  The size class rotates with the case number (tiny: a header record or two, one frame ... large: several
+logical files / hundreds of frames, tens of kilobytes); the small files that PART 2 sweeps are checked here as well:
 
   RP66V1    gen.dlis_logical.random_file + gen.dlis.build (random sets / frames / segmentation / visible records); the first
             80 bytes are replaced by a storage unit label written here from RP66V1 2.3.2: sequence number 1..9999 and
@@ -19,7 +20,9 @@ file on disk:
             number / file number / checksum trailers)                                                 -> 'LIS'
   LISt/LIStr the same with TIF markers, little / big endian                                           -> 'LISt' / 'LIStr'
             EXCLUDED as the property says: TIF-marked files whose first physical record is exactly 276 bytes (first marker
-            'next' = 0x120): they carry the BIT signature.  Such layouts are drawn again (counted in the statistics).
+            'next' = 0x120): they carry the BIT signature.  Such layouts would be drawn again and counted in the statistics;
+            with the 58 / 128 byte header records LIS-79 prescribes for the start of a file the first physical record is at
+            most 138 bytes, so the class is in fact never drawn.
   LAS       gen.las.random_content + render, versions 1.2 and 2.0, wrapped or not, every layout knob   -> 'LAS1.2' / 'LAS2.0'
   BIT       gen.bit.build, 1..3 log passes, 1..20 channels, 1..hundreds of frames                      -> 'BIT'
   DAT       gen.dat.random_model with at least one data row, any layout                               -> 'DAT'
@@ -35,11 +38,16 @@ PART 2 - totality.  For arbitrary byte strings:
   * "near signatures": every magic number / header documented in bin_file_type.py (RCD, STK, BIT, CFBF, PDS, XML, PDF, PS,
     ZIP, TIFF, JPEG, LAS 3.0, RP66V2 label, LIS verification listing, SEG-Y card images) written here from that
     documentation, followed by random tails, truncated, and mutated,
-the call must: return within TIME_LIMIT seconds of CPU time (interval timer; the call is abandoned at the limit), raise
-nothing, return a str that is '' or a member of BINARY_FILE_TYPES_SUPPORTED (compared with the literal list of documented
-codes below as well), leave the file object at position 0 with unchanged content, and (from_path, on a deterministic
-subset) leave the file on disk unchanged.  A failing input is shrunk (shortest failing prefix, chunk removal, blanking) before
-it is reported.
+the call must: return within TIME_LIMIT seconds of CPU time (interval timer; the call is abandoned at the limit and the
+run stops after three such calls), raise nothing, return a str that is '' or a member of BINARY_FILE_TYPES_SUPPORTED
+(compared with the literal list of documented codes below as well), leave the file object open at position 0 with
+unchanged content, and (binary_file_type_from_path, for every 16th string) give the same answer and leave the file on
+disk unchanged.  A failing input is shrunk (shortest failing prefix, chunk removal, zeroing) before it is reported; the
+failure is named by exception type and the TotalDepth function that raised it.
+
+KNOWN_FINDINGS lists the crashes of the unchanged repository (all "raises nothing" violations); matching inputs are
+counted and skipped, and at the end of a run the minimal witness of each entry is tried again so that a repaired entry
+shows up as removable.
 """
 import argparse
 import collections
@@ -72,64 +80,20 @@ from TotalDepth.util import bin_file_type  # noqa: E402
 #: Genuine defects of the unchanged repository.  An input is skipped (counted, not judged) only if the observed failure AND
 #: the input match the entry exactly.
 KNOWN_FINDINGS = [
-    {
-        'id': 'segy-card-number-not-an-integer',
-        'failure': r'raised:ValueError@SEGY\.py:is_segy',
-        'input_class': 'the first 3200 bytes are EBCDIC (cp500) text whose 80 byte cards start "C01", "C02", ... up to some '
-                       'card k <= 40 that starts with "C" followed by two characters that int() does not accept '
-                       '(predicate segy_card_number_not_int)',
-        'what': "util/SEGY.is_segy() evaluates int(card[1:3]) without guarding ValueError, so binary_file_type() raises "
-                "ValueError instead of answering",
-        'minimal': {'runs': [['c3', 1], ['40', 3199]], 'note': "EBCDIC 'C' and 3199 blanks"},
-    },
-    # bin_file_type._lis() only catches ExceptionTotalDepthLIS; the LIS indexer it calls lets these implicit exceptions
-    # out for LIS-like input.  The input class of each is "whatever byte string the LIS physical/logical record reader
-    # resolves into the described record" (it cannot be decided from the bytes without re-implementing that reader and its
-    # padding heuristics), so the entries are keyed by exception type, the TotalDepth function in which it is raised and
-    # the fact that the traceback passes through bin_file_type._lis.
-    {
-        'id': 'lis-logical-record-of-one-byte',
-        'failure': r'raised:error@FileIndexer\.py:__init__ via _lis',
-        'input_class': 'a LIS logical record that ends after one byte (physical record with a single payload byte and no successor)',
-        'what': 'FileIndexer.FileIndex.__init__ unpacks the two byte logical record header from the one byte it got: '
-                "struct.error('unpack requires a buffer of 2 bytes')",
-        'minimal': {'hex': '0005000080'},
-    },
-    {
-        'id': 'lis-datum-spec-block-zero-samples-or-code-size',
-        'failure': r'raised:ZeroDivisionError@LogiRec\.py:_setBurstsSubChannels via _lis',
-        'input_class': 'a LIS data format specification record with a datum specification block of non-zero size whose number of '
-                       'samples is 0 or whose representation code has size 0 (code 65)',
-        'what': 'DatumSpecBlock._setBurstsSubChannels computes size % (code size * samples): ZeroDivisionError',
-        'minimal': {'hex': '003100004000000042802020202020202020202020202020202020464545540000000000000004000000004400'
-                           '00000000'},
-    },
-    {
-        'id': 'lis-entry-block-2-not-an-integer',
-        'failure': r'raised:(TypeError|ValueError)@LogiRec\.py:__init__ via _lis',
-        'input_class': 'a LIS data format specification record whose entry block 2 (datum specification block sub-type) has size 0, '
-                       'or a text or floating point representation code',
-        'what': "LrDFSRRead.__init__ formats the value with '{:d}' while building its ExceptionLr message: TypeError / ValueError",
-        'minimal': {'hex': '000c000040000200420000ff'},
-    },
-    {
-        'id': 'lis-entry-block-text-cut-short',
-        'failure': r'raised:AssertionError@LogiRec\.py:_setLisSizeEven via _lis',
-        'input_class': 'a LIS data format specification record that ends inside (before) the value of an entry block of '
-                       'representation code 65 with non-zero size',
-        'what': 'EntryBlockRead gets None for the value, EntryBlockSet.setEntryBlock stores it and the integrity assertion '
-                'in _setLisSizeEven fails: AssertionError',
-        'minimal': {'hex': '000d00004000040142ff090441'},
-    },
-    {
-        'id': 'lis-data-record-without-data',
-        'failure': r'raised:TypeError@RepCode\.py:readBytes\d+ via _lis',
-        'input_class': 'a LIS normal/alternate data record with no bytes after its header (or fewer than the X axis value needs: '
-                       'the reader returns None) following a data format specification record',
-        'what': "the indexer reads the X axis value of the record's first frame from None: TypeError in RepCode.readBytesNN",
-        'minimal': {'hex': '003100004000000042802020202020202020202020202020202020464545540000000000000004000000014400'
-                           '00000000000600000000'},
-    },
+    # All six entries found on the pinned tree were repaired in /repo:
+    #   segy-card-number-not-an-integer (ValueError in SEGY.is_segy)                       -> 'fix: SEGY.is_segy: a card whose number ...'
+    #   lis-logical-record-of-one-byte, lis-datum-spec-block-zero-samples-or-code-size, lis-entry-block-2-not-an-integer,
+    #   lis-entry-block-text-cut-short, lis-data-record-without-data (struct.error, ZeroDivisionError, TypeError / ValueError,
+    #   AssertionError, TypeError escaping through bin_file_type._lis)                     -> 'fix: bin_file_type._lis: any failure to index ...'
+    # so nothing is excluded any more: the same inputs are generated and judged, and a return of any of them is reported.
+]
+REPAIRED_WITNESSES = [
+    {'id': 'segy-card-number-not-an-integer', 'minimal': {'runs': [['c3', 1], ['40', 3199]]}},
+    {'id': 'lis-logical-record-of-one-byte', 'minimal': {'hex': '0005000080'}},
+    {'id': 'lis-datum-spec-block-zero-samples-or-code-size', 'minimal': {'hex': '00310000400000004280202020202020202020202020202020202046454554000000000000000400000000440000000000'}},
+    {'id': 'lis-entry-block-2-not-an-integer', 'minimal': {'hex': '000c000040000200420000ff'}},
+    {'id': 'lis-entry-block-text-cut-short', 'minimal': {'hex': '000d00004000040142ff090441'}},
+    {'id': 'lis-data-record-without-data', 'minimal': {'hex': '0031000040000000428020202020202020202020202020202020204645455400000000000000040000000144000000000000000600000000'}},
 ]
 
 TIME_LIMIT = 2.0
@@ -280,7 +244,7 @@ def minimal_bytes(k):
 def storage_unit_label(rnd):
     """RP66V1 2.3.2: sequence number 4, 'V1.nn' 5, 'RECORD' 6, maximum record length 5, identifier 60."""
     seq = rnd.choice([1, 1, 2, 9, 10, 20, 100, 101, 110, 1000, 1001, 1010, 9000, 9999, rnd.randint(1, 9999), rnd.randint(1, 9999)])
-    maxlen = rnd.choice([20, 100, 1000, 1024, 2000, 4096, 8192, 8192, 10000, 10240, 16000, 16384, 10, 99999, 20480, 65000,
+    maxlen = rnd.choice([20, 100, 1000, 1024, 2000, 4096, 8192, 8192, 10000, 10240, 16000, 16384, 99999, 20480, 65000,
                          rnd.randint(20, 16384), rnd.randint(20, 16384)])
     style = rnd.choice(['blank', 'blank', 'zero', 'mixed'])
 
@@ -740,28 +704,31 @@ def main():
                     raise StopRun()
             return o
 
+        def recognition(data, expect, info, base):
+            """PART 1 check of one valid file."""
+            stats['valid files: ' + expect] += 1
+            for via, o in (('file object', observe(data)), ('path', observe_path(data, path))):
+                fl = list(o.failures)
+                if not fl and o.result != expect:
+                    fl.append('misidentified')
+                if 'timeout' in fl:
+                    stats['timeouts'] += 1
+                if fl:
+                    report(dict(base, what='valid %s file: %s' % (expect, ', '.join(fl)), via=via, expected=expect,
+                                observed=o.exc if o.exc is not None else repr(o.result), file=info,
+                                cpu_seconds=round(o.cpu, 3), input=describe_bytes(data)))
+
         def run_case(case):
             rnd = random.Random('c20:%d:%d' % (args.seed, case))
             base = {'seed': args.seed, 'case': case}
-            size = ['small', 'medium', 'large', 'medium', 'small'][case % 5]
+            size = ['tiny', 'small', 'medium', 'large', 'medium', 'small'][case % 6]
 
             # ------------------------------------------------------------------ PART 1: recognition of valid files
             valid = {}
             for kind in KINDS:
                 data, expect, info = make_valid(kind, rnd, size, stats)
                 valid[kind] = data
-                stats['valid files: ' + kind] += 1
-                for via, o in (('file object', observe(data)), ('path', observe_path(data, path))):
-                    fl = list(o.failures)
-                    if not fl and o.result != expect:
-                        fl.append('misidentified')
-                    if 'timeout' in fl:
-                        stats['timeouts'] += 1
-                    if fl:
-                        pass
-                        report(dict(base, what='valid %s file: %s' % (kind, ', '.join(fl)), via=via, expected=expect,
-                                    observed=o.exc if o.exc is not None else repr(o.result), file=info,
-                                    cpu_seconds=round(o.cpu, 3), input=describe_bytes(data)))
+                recognition(data, expect, info, base)
             nontrivial[0] += 1
 
             # ------------------------------------------------------------------ PART 2: arbitrary byte strings
@@ -773,6 +740,7 @@ def main():
                         d, info = make_dat(rnd, 'tiny', need_rows=False)
                     else:
                         d, _e, info = make_valid(kind, rnd, 'tiny', stats)
+                        recognition(d, kind, info, base)          # it is a valid file as well
                     if small is None or len(d) < len(small):
                         small = d
                     if len(small) <= 700:
@@ -851,6 +819,11 @@ def main():
         still = any(known_finding(minimal_bytes(k), f) == k['id'] for f in o.failures)
         print('known finding %-50s minimal witness %s' % (k['id'], 'still fails (%s)' % o.exc if still else
                                                           'NO LONGER FAILS: the exclusion can be removed'))
+    # witnesses of the defects repaired in /repo: tried on every run, a failure is a violation again
+    for k in REPAIRED_WITNESSES:
+        o = observe(minimal_bytes(k))
+        if o.failures:
+            bad.append({'property': 'C20', 'what': 'repaired defect %s is back: %s' % (k['id'], o.failures[0]), 'witness': k['minimal']})
     total_calls = sum(v for k, v in stats.items() if k.startswith('calls: '))
     print('identification calls on arbitrary byte strings: %d' % total_calls)
     for k in sorted(stats):
